@@ -48,8 +48,11 @@ Vals(w) == IF ValMode = "b" THEN ValsB(w)
            ELSE IF w = 2 THEN {<<a, b>> : a \in BB, b \in BB}
            ELSE ValsB(4) \cup {<<0,0,0,1>>, <<0,1,0,0>>, <<255,0,0,0>>, <<0,255,0,0>>, <<0,0,255,0>>, <<0,0,0,255>>, <<255,255,255,0>>, <<0,255,255,255>>,
                                  <<254,255,255,255>>, <<128,0,0,0>>, <<0,128,0,0>>, <<0,0,128,0>>}
+\* values relative to the entry itself: the value it reads as, that value -/+ the node id (for a node-id relative entry the first of
+\* these is its raw storage: "store written value minus node id" must not be short-cut by comparing the raw value), and the raw storage
+Special(e, n) == LET x == RdTyped(e, n, e.w).val IN {x, SubByte(x, n), AddByte(x, n), e.data}
 RoundTrip == \A p \in 1..Len(AccDict), n \in NodeIds : LET e == AccDict[p] IN
-               e.kind = "int" => \A v \in Vals(e.w) :
+               e.kind = "int" => \A v \in Vals(e.w) \cup Special(e, n) :
                  /\ RdTyped(WrTyped(e, n, e.w, v).e, n, e.w).val = v
                  /\ \A w2 \in {1,2,4} \ {e.w} : ~RdTyped(e, n, w2).ok /\ ~WrTyped(e, n, w2, Zeros(w2)).ok
 ASSUME RoundTrip
@@ -72,8 +75,23 @@ IntBeh(p, n, v) ==
                Step(<<OpW(others[2], FALSE), e.idx, e.sub>> \o Zeros(others[2]), << <<"err", -1>> >>),
                Step(<<"rdbuf", e.idx, e.sub, w>>, << <<"buf", 0>> \o v >>),
                Step(<<OpW(w, TRUE), e.idx, e.sub>>, << <<"ret">> \o v >>) >>]
+\* two writes in a row: v, then v minus the node id (the raw representation of what was just stored)
+IntBeh2(p, n, v) ==
+  LET e == AccDict[p]
+      w == e.w
+      w1 == WrTyped(e, n, w, v)
+      v2 == SubByte(v, n)
+      w2 == WrTyped(w1.e, n, w, v2)
+  IN [c |-> [n |-> n, d |-> HDict(AccDict)],
+      h |-> << Step(<<OpW(w, FALSE), e.idx, e.sub>> \o v, << <<"ok">> >> \o Chg(e, w1.e)),
+               Step(<<OpW(w, TRUE), e.idx, e.sub>>, << <<"ret">> \o v >>),
+               Step(<<OpW(w, FALSE), e.idx, e.sub>> \o v2, << <<"ok">> >> \o Chg(w1.e, w2.e)),
+               Step(<<OpW(w, TRUE), e.idx, e.sub>>, << <<"ret">> \o v2 >>),
+               Step(<<OpW(w, FALSE), e.idx, e.sub>> \o v2, << <<"ok">> >>),
+               Step(<<OpW(w, TRUE), e.idx, e.sub>>, << <<"ret">> \o v2 >>) >>]
 ASSUME \A p \in 1..Len(AccDict), n \in NodeIds : AccDict[p].kind = "int" =>
-          \A v \in Vals(AccDict[p].w) : PrintT(<<"BEH", ToJson(IntBeh(p, n, v))>>)
+          /\ \A v \in Vals(AccDict[p].w) \cup Special(AccDict[p], n) : PrintT(<<"BEH", ToJson(IntBeh(p, n, v))>>)
+          /\ \A v \in ValsB(AccDict[p].w) : PrintT(<<"BEH", ToJson(IntBeh2(p, n, v))>>)
 
 \* buffers: write len bytes of a pattern, read back with every length, twice
 BufMoved == \A p \in 1..Len(AccDict), len \in Lens : LET e == AccDict[p] IN
